@@ -19,7 +19,7 @@ from .c09 import Forest
 NODES = ["n0", "n1", "n2", "n3", "n4", "n5", "n6"]
 MESH_BASES = ["tetra", "box", "octa", "open_box", "prism5"]
 READS = ["bounds", "extents", "centroid", "scale", "area", "volume", "triangles", "convex_hull", "dump", "to_mesh", "to_geometry", "bounds_corners", "is_valid", "geometry_nodes"]
-EDIT_KINDS = ["edge", "reparent", "geom_edit", "delete_geometry", "replace_geometry", "instance", "add", "cache_clear", "remove_node"]
+EDIT_KINDS = ["edge", "reparent", "geom_edit", "delete_geometry", "replace_geometry", "instance", "add", "cache_clear", "remove_node", "add_duplicate", "geom_edit_all", "swap_geometry", "set_base"]
 DERIVED = ["copy", "scaled", "scaled3", "convert_units", "rezero", "apply_transform", "subscene", "add_scene", "add_self"]
 EDGE_CLASSES = ["identity", "translation", "rigid", "similarity", "uniform_scale"]
 TO_M = {"mm": 0.001, "in": 0.0254, "m": 1.0, "feet": 0.3048}
@@ -125,7 +125,7 @@ def canon_tris(T):
 
 class C10(World):
     ID = "C10"
-    RUNS = {"quick": 12000, "thorough": 600000}
+    RUNS = {"quick": 40000, "thorough": 1500000}
     WALL = {"quick": 110.0, "thorough": 1700.0}
     BLOCK = 60
     RULE = (
@@ -180,12 +180,14 @@ class C10(World):
         ops = []
         for i in range(cfg["n_build"]):
             cls, M = self._gen_matrix(rng)
-            if i == 0 or rng.random() < 0.6:
+            if i > 0 and rng.random() < 0.2:
+                ops.append({"op": "add_duplicate", "i": rng.randrange(8), "node": NODES[i], "parent": rng.randrange(8), "cls": cls, "matrix": M, "rs": rng.randrange(2**31)})
+            elif i == 0 or rng.random() < 0.6:
                 ops.append({"op": "add", "geom": self._gen_geom(rng, cfg), "gname": f"g{i}", "node": NODES[i], "parent": rng.randrange(8), "cls": cls, "matrix": M, "rs": rng.randrange(2**31)})
             else:
                 ops.append({"op": "instance", "g": rng.randrange(8), "node": NODES[i], "parent": rng.randrange(8), "cls": cls, "matrix": M, "rs": rng.randrange(2**31)})
         for _ in range(cfg["n_steps"]):
-            for _ in range(rng.choice([0, 1, 2, 4])):
+            for _ in range(rng.choice([0, 1, 2, 4, 6])):
                 ops.append({"op": "read", "obs": rng.choice(cfg["reads"]), "rs": rng.randrange(2**31)})
             if rng.random() < cfg["p_derived"]:
                 kind = pick(rng, cfg["w_derived"])
@@ -198,7 +200,10 @@ class C10(World):
                 op.update({"geom": self._gen_geom(rng, cfg), "gname": f"x{rng.randrange(3)}", "node": rng.choice(NODES), "parent": rng.randrange(8)})
             if kind == "instance":
                 op.update({"g": rng.randrange(8), "node": rng.choice(NODES), "parent": rng.randrange(8)})
-            if kind == "geom_edit":
+            if kind == "add_duplicate":
+                op.update({"node": rng.choice(NODES), "parent": rng.randrange(8)})
+                op["cls"], op["matrix"] = self._gen_matrix(rng)
+            if kind in ("geom_edit", "geom_edit_all"):
                 op["route"] = rng.choice(["iadd", "item", "apply_transform", "apply_translation", "assign"])
                 op["cls"], op["matrix"] = "rigid", mx.make(rng, "rigid").tolist()
                 op["d"] = round(rng.uniform(0.2, 0.7), 3)
@@ -572,6 +577,60 @@ class C10(World):
                 g.apply_transform(M)
                 rec["V"] = mx.apply(M, rec["V"])
             return scene, model
+        if k == "add_duplicate":
+            # a second geometry object with exactly the same arrays under another name
+            names = sorted(model.geoms)
+            node = op["node"]
+            if not names or node in f.nodes or node == f.base:
+                raise Inapplicable()
+            src_name = names[op["i"] % len(names)]
+            name = src_name + "_dup"
+            if name in model.geoms:
+                raise Inapplicable()
+            parent = self._pick_parent(model, op["parent"])
+            g = scene.geometry[src_name].copy()
+            scene.add_geometry(g, node_name=node, geom_name=name, parent_node_name=parent, transform=np.array(op["matrix"]))
+            rec = model.geoms[src_name]
+            model.geoms[name] = {"kind": rec["kind"], "V": rec["V"].copy(), "F": None if rec["F"] is None else rec["F"].copy(), "units": rec.get("units")}
+            f.update(node, parent, np.array(op["matrix"]), name)
+            return scene, model
+        if k == "geom_edit_all":
+            # the same edit applied to every geometry (cancels in an order-insensitive / xor style hash)
+            if not model.geoms:
+                raise Inapplicable()
+            for name in sorted(model.geoms):
+                rec = model.geoms[name]
+                g = scene.geometry[name]
+                if len(rec["V"]) == 0:
+                    continue
+                if op["route"] in ("iadd", "item", "apply_translation"):
+                    g.apply_translation([op["d"], 0, -op["d"]])
+                    rec["V"] = rec["V"] + np.array([op["d"], 0, -op["d"]])
+                elif op["route"] == "assign":
+                    g.vertices = rec["V"] * 1.25
+                    rec["V"] = rec["V"] * 1.25
+                else:
+                    g.apply_scale(1.0 + op["d"])
+                    rec["V"] = rec["V"] * (1.0 + op["d"])
+            return scene, model
+        if k == "swap_geometry":
+            names = sorted(model.geoms)
+            if len(names) < 2:
+                raise Inapplicable()
+            a, b = names[op["i"] % len(names)], names[(op["i"] + 1 + op["j"] % (len(names) - 1)) % len(names)]
+            if a == b:
+                raise Inapplicable()
+            scene.geometry[a], scene.geometry[b] = scene.geometry[b], scene.geometry[a]
+            model.geoms[a], model.geoms[b] = model.geoms[b], model.geoms[a]
+            return scene, model
+        if k == "set_base":
+            cands = sorted(n for n in f.nodes if n != f.base and f.connected(n, f.base))
+            if not cands:
+                raise Inapplicable()
+            n = cands[op["i"] % len(cands)]
+            scene.graph.base_frame = n
+            f.base = n
+            return scene, model
         if k == "delete_geometry":
             names = sorted(model.geoms)
             if not names:
@@ -602,6 +661,9 @@ class C10(World):
         src = model.placements()
         if not src and k in ("scaled", "scaled3", "convert_units", "subscene"):
             # a scene without instances has no placement to preserve
+            raise Inapplicable()
+        if f.base in f.parent and k not in ("copy", "subscene"):
+            # these re-hang or extend the graph at the base frame and assume it is a root
             raise Inapplicable()
         before = self.snapshot(scene)
         by_name = True
